@@ -357,7 +357,10 @@ def _fill_in_default_arguments(
     for i_param, param in enumerate(sig.parameters.values()):
         is_receiver = has_receiver and i_param == 0
         # `*args` and `**kwargs` take whatever else the call site has - nothing is required.
-        if param.kind in (param.VAR_POSITIONAL, param.VAR_KEYWORD):
+        if param.kind == param.VAR_POSITIONAL:
+            # (what comes after it can only be given by keyword, and stays as it is written)
+            break
+        if param.kind == param.VAR_KEYWORD:
             continue
         # The stream operators (Select, Where, ...) keep exactly what the user wrote - their
         # extra parameters are for internal use only.
